@@ -526,5 +526,399 @@ theorem reach_inv {pool : Nat} {s : Sys σ Req Resp} (hr : Reach step route s0 p
 
 end sysinv
 
+/-! ## order of the events of one operation in a valid log -/
+
+section order
+variable {σ Req Resp : Type} [DecidableEq Resp] (step : σ → Req → σ × Resp)
+
+theorem stepEv_wf {r r' : RState σ Req Resp} {e : Ev Req Resp} (h : stepEv step r e = some r')
+    (hp : WF r.pend) (hd : WF r.done) : WF r'.pend ∧ WF r'.done := by
+  cases e with
+  | inv id req =>
+    simp only [stepEv] at h
+    split at h
+    · injection h with h; subst h; exact ⟨wf_insert hp, hd⟩
+    · cases h
+  | lin id resp =>
+    simp only [stepEv] at h
+    split at h
+    · cases h
+    · split at h
+      · injection h with h; subst h; exact ⟨wf_erase hp, wf_insert hd⟩
+      · cases h
+  | res id resp =>
+    simp only [stepEv] at h
+    split at h
+    · injection h with h; subst h; exact ⟨hp, wf_erase hd⟩
+    · cases h
+
+/-- an operation that is pending was invoked earlier -/
+theorem pend_of_replay (pre : List (Ev Req Resp)) (r0 r1 : RState σ Req Resp)
+    (h : replay step r0 pre = some r1) (hp : WF r0.pend) (hd : WF r0.done) (id : Nat) (req : Req)
+    (hg : get r1.pend id = some req) : get r0.pend id = some req ∨ (.inv id req) ∈ pre := by
+  induction pre generalizing r0 with
+  | nil => injection h with h; subst h; exact Or.inl hg
+  | cons e es ih =>
+    simp only [replay] at h
+    cases he : stepEv step r0 e with
+    | none => rw [he] at h; cases h
+    | some r' =>
+      rw [he] at h
+      obtain ⟨hp', hd'⟩ := stepEv_wf step he hp hd
+      rcases ih r' h hp' hd' with h1 | h1
+      · cases e with
+        | inv id' req' =>
+          simp only [stepEv] at he
+          split at he
+          · injection he with he; subst he
+            simp only [get_insert] at h1
+            split at h1
+            · rename_i e1; injection h1 with e2; subst e1; subst e2; exact Or.inr (by simp)
+            · exact Or.inl h1
+          · cases he
+        | lin id' resp' =>
+          simp only [stepEv] at he
+          split at he
+          · cases he
+          · split at he
+            · injection he with he; subst he
+              simp only [get_erase hp] at h1
+              split at h1
+              · cases h1
+              · exact Or.inl h1
+            · cases he
+        | res id' resp' =>
+          simp only [stepEv] at he
+          split at he
+          · injection he with he; subst he; exact Or.inl h1
+          · cases he
+      · exact Or.inr (by simp [h1])
+
+/-- an operation whose response is ready has taken effect earlier, with that response -/
+theorem done_of_replay (pre : List (Ev Req Resp)) (r0 r1 : RState σ Req Resp)
+    (h : replay step r0 pre = some r1) (hp : WF r0.pend) (hd : WF r0.done) (id : Nat) (resp : Resp)
+    (hg : get r1.done id = some resp) : get r0.done id = some resp ∨ (.lin id resp) ∈ pre := by
+  induction pre generalizing r0 with
+  | nil => injection h with h; subst h; exact Or.inl hg
+  | cons e es ih =>
+    simp only [replay] at h
+    cases he : stepEv step r0 e with
+    | none => rw [he] at h; cases h
+    | some r' =>
+      rw [he] at h
+      obtain ⟨hp', hd'⟩ := stepEv_wf step he hp hd
+      rcases ih r' h hp' hd' with h1 | h1
+      · cases e with
+        | inv id' req' =>
+          simp only [stepEv] at he
+          split at he
+          · injection he with he; subst he; exact Or.inl h1
+          · cases he
+        | lin id' resp' =>
+          simp only [stepEv] at he
+          split at he
+          · cases he
+          · split at he
+            · injection he with he; subst he
+              simp only [get_insert] at h1
+              split at h1
+              · rename_i e1; injection h1 with e2; subst e1; subst e2; exact Or.inr (by simp)
+              · exact Or.inl h1
+            · cases he
+        | res id' resp' =>
+          simp only [stepEv] at he
+          split at he
+          · injection he with he; subst he
+            simp only [get_erase hd] at h1
+            split at h1
+            · cases h1
+            · exact Or.inl h1
+          · cases he
+      · exact Or.inr (by simp [h1])
+
+theorem replay_split (pre : List (Ev Req Resp)) (e : Ev Req Resp) (post : List (Ev Req Resp))
+    (r0 : RState σ Req Resp) (h : (replay step r0 (pre ++ e :: post)).isSome) :
+    ∃ r1, replay step r0 pre = some r1 ∧ (stepEv step r1 e).isSome := by
+  rw [replay_append] at h
+  cases h1 : replay step r0 pre with
+  | none => rw [h1] at h; cases h
+  | some r1 =>
+    rw [h1] at h
+    refine ⟨r1, rfl, ?_⟩
+    show (stepEv step r1 e).isSome
+    cases h2 : stepEv step r1 e with
+    | none =>
+      have : replay step r1 (e :: post) = none := by simp [replay, h2]
+      simp [Option.bind, this] at h
+    | some _ => rfl
+
+/-- **every linearization point lies after the invocation of its operation** -/
+theorem lin_after_inv (s0 : σ) (pre post : List (Ev Req Resp)) (id : Nat) (resp : Resp)
+    (h : ValidLog step s0 (pre ++ .lin id resp :: post)) : ∃ req, (.inv id req) ∈ pre := by
+  obtain ⟨r1, h1, h2⟩ := replay_split step pre _ post _ h
+  simp only [stepEv] at h2
+  cases hg : get r1.pend id with
+  | none => rw [hg] at h2; cases h2
+  | some req =>
+    rcases pend_of_replay step pre _ r1 h1 wf_nil wf_nil id req hg with e | e
+    · cases e
+    · exact ⟨req, e⟩
+
+/-- **every response is delivered after the linearization point of its operation, and is the
+    response computed there** -/
+theorem res_after_lin (s0 : σ) (pre post : List (Ev Req Resp)) (id : Nat) (resp : Resp)
+    (h : ValidLog step s0 (pre ++ .res id resp :: post)) : (.lin id resp) ∈ pre := by
+  obtain ⟨r1, h1, h2⟩ := replay_split step pre _ post _ h
+  simp only [stepEv] at h2
+  split at h2
+  · rename_i hg
+    rcases done_of_replay step pre _ r1 h1 wf_nil wf_nil id resp hg with e | e
+    · cases e
+    · exact e
+  · cases h2
+
+end order
+
+/-! ## refinement of specifications preserves valid logs -/
+
+section sim
+variable {σA σB Req Resp : Type} [DecidableEq Resp]
+  (stepA : σA → Req → σA × Resp) (stepB : σB → Req → σB × Resp)
+
+theorem mem_erase_of {ν : Type} {k : Nat} {m : NMap ν} {p : Nat × ν} (h : p ∈ erase k m) : p ∈ m := by
+  induction m with
+  | nil => simp [erase] at h
+  | cons q m ih =>
+    obtain ⟨kq, vq⟩ := q
+    simp only [erase] at h
+    split at h
+    · exact List.mem_cons_of_mem _ h
+    · rcases List.mem_cons.mp h with e | e
+      · subst e; exact List.mem_cons_self
+      · exact List.mem_cons_of_mem _ (ih e)
+
+/-- one event: if `A` accepts it, so does `B`, and the bookkeeping stays equal -/
+theorem stepEv_sim (Rel : σA → σB → Prop) (Ok : Req → Prop)
+    (hsim : ∀ a b req, Rel a b → Ok req →
+      Rel (stepA a req).1 (stepB b req).1 ∧ (stepA a req).2 = (stepB b req).2)
+    (e : Ev Req Resp) (rA rA1 : RState σA Req Resp) (rB : RState σB Req Resp)
+    (hrel : Rel rA.s rB.s) (hp : rA.pend = rB.pend) (hd : rA.done = rB.done) (hn : rA.next = rB.next)
+    (hok : ∀ p ∈ rA.pend, Ok p.2) (he0 : ∀ id req, e = .inv id req → Ok req)
+    (he : stepEv stepA rA e = some rA1) :
+    ∃ rB1, stepEv stepB rB e = some rB1 ∧ Rel rA1.s rB1.s ∧ rA1.pend = rB1.pend ∧
+      rA1.done = rB1.done ∧ rA1.next = rB1.next ∧ (∀ p ∈ rA1.pend, Ok p.2) := by
+  cases e with
+  | inv id req =>
+    simp only [stepEv] at he ⊢
+    by_cases hle : rA.next ≤ id
+    · rw [if_pos hle] at he
+      rw [if_pos (by rw [← hn]; exact hle)]
+      injection he with he
+      refine ⟨_, rfl, ?_⟩
+      rw [← he]
+      refine ⟨hrel, by simp [hp], hd, rfl, ?_⟩
+      intro p hp'
+      rcases mem_insert hp' with e1 | e1
+      · rw [e1]; exact he0 id req rfl
+      · exact hok p e1
+    · rw [if_neg hle] at he; cases he
+  | lin id resp =>
+    simp only [stepEv] at he ⊢
+    rw [← hp]
+    cases hg : get rA.pend id with
+    | none => rw [hg] at he; cases he
+    | some req =>
+      rw [hg] at he
+      simp only at he ⊢
+      have hokr : Ok req := hok (id, req) (mem_of_get hg)
+      obtain ⟨s1, s2⟩ := hsim _ _ req hrel hokr
+      by_cases hr : (stepA rA.s req).2 = resp
+      · rw [if_pos hr] at he
+        rw [if_pos (by rw [← s2]; exact hr)]
+        injection he with he
+        refine ⟨_, rfl, ?_⟩
+        rw [← he]
+        refine ⟨s1, rfl, by simp [hd], hn, ?_⟩
+        intro p hp'
+        exact hok p (mem_erase_of hp')
+      · rw [if_neg hr] at he; cases he
+  | res id resp =>
+    simp only [stepEv] at he ⊢
+    rw [← hd]
+    by_cases hg : get rA.done id = some resp
+    · rw [if_pos hg] at he
+      rw [if_pos hg]
+      injection he with he
+      refine ⟨_, rfl, ?_⟩
+      rw [← he]
+      exact ⟨hrel, hp, rfl, hn, hok⟩
+    · rw [if_neg hg] at he; cases he
+
+/-- if every step of specification `A` on an allowed request is matched by `B` (same response,
+    related states), every log that is valid for `A` is valid for `B` -/
+theorem replay_sim (Rel : σA → σB → Prop) (Ok : Req → Prop)
+    (hsim : ∀ a b req, Rel a b → Ok req →
+      Rel (stepA a req).1 (stepB b req).1 ∧ (stepA a req).2 = (stepB b req).2)
+    (log : List (Ev Req Resp)) (rA rA' : RState σA Req Resp) (rB : RState σB Req Resp)
+    (hrel : Rel rA.s rB.s) (hp : rA.pend = rB.pend) (hd : rA.done = rB.done) (hn : rA.next = rB.next)
+    (hok : ∀ p ∈ rA.pend, Ok p.2) (hlog : ∀ id req, (.inv id req) ∈ log → Ok req)
+    (h : replay stepA rA log = some rA') :
+    ∃ rB', replay stepB rB log = some rB' ∧ Rel rA'.s rB'.s ∧ rA'.pend = rB'.pend ∧
+      rA'.done = rB'.done := by
+  induction log generalizing rA rB with
+  | nil => injection h with h; subst h; exact ⟨rB, rfl, hrel, hp, hd⟩
+  | cons e es ih =>
+    simp only [replay] at h ⊢
+    cases he : stepEv stepA rA e with
+    | none => rw [he] at h; cases h
+    | some rA1 =>
+      rw [he] at h
+      obtain ⟨rB1, hb, h1, h2, h3, h4, h5⟩ := stepEv_sim stepA stepB Rel Ok hsim e rA rA1 rB hrel hp hd
+        hn hok (fun id req e1 => hlog id req (by simp [e1])) he
+      rw [hb]
+      exact ih rA1 rB1 h1 h2 h3 h4 h5 (fun id req hm => hlog id req (by simp [hm])) h
+
+end sim
+
+/-! ## sequential histories: linearizable only if legal in program order -/
+
+section seq
+variable {σ Req Resp : Type} [DecidableEq Resp] (step : σ → Req → σ × Resp)
+
+/-- the history of one client issuing operations one after the other -/
+def seqHist : List (Nat × Req × Resp) → List (Ev Req Resp)
+  | [] => []
+  | (id, req, resp) :: rest => .inv id req :: .res id resp :: seqHist rest
+
+/-- the responses are those of the specification run in program order -/
+def seqLegal : σ → List (Nat × Req × Resp) → Prop
+  | _, [] => True
+  | s, (_, req, resp) :: rest => (step s req).2 = resp ∧ seqLegal (step s req).1 rest
+
+inductive Phase (Req Resp : Type)
+  | idle
+  | invoked (id : Nat) (req : Req) (resp : Resp)
+  | linearized (id : Nat) (resp' resp : Resp)
+
+def remaining : Phase Req Resp → List (Nat × Req × Resp) → List (Ev Req Resp)
+  | .idle, rest => seqHist rest
+  | .invoked id _ resp, rest => .res id resp :: seqHist rest
+  | .linearized id _ resp, rest => .res id resp :: seqHist rest
+
+def PhaseOk : Phase Req Resp → RState σ Req Resp → Prop
+  | .idle, r => r.pend = [] ∧ r.done = []
+  | .invoked id req _, r => r.pend = [(id, req)] ∧ r.done = []
+  | .linearized id resp' _, r => r.pend = [] ∧ r.done = [(id, resp')]
+
+def PhaseGoal : Phase Req Resp → RState σ Req Resp → List (Nat × Req × Resp) → Prop
+  | .idle, r, rest => seqLegal step r.s rest
+  | .invoked _ req resp, r, rest => (step r.s req).2 = resp ∧ seqLegal step (step r.s req).1 rest
+  | .linearized _ resp' resp, r, rest => resp' = resp ∧ seqLegal step r.s rest
+
+theorem seq_phase (log : List (Ev Req Resp)) (r : RState σ Req Resp) (ph : Phase Req Resp)
+    (rest : List (Nat × Req × Resp)) (hh : history log = remaining ph rest) (hp : PhaseOk ph r)
+    (hv : (replay step r log).isSome) : PhaseGoal step ph r rest := by
+  induction log generalizing r ph rest with
+  | nil =>
+    cases ph with
+    | idle =>
+      cases rest with
+      | nil => trivial
+      | cons o rest' => obtain ⟨i, q, p⟩ := o; cases hh
+    | invoked _ _ _ => cases hh
+    | linearized _ _ _ => cases hh
+  | cons e es ih =>
+    simp only [replay] at hv
+    cases he : stepEv step r e with
+    | none => rw [he] at hv; cases hv
+    | some r1 =>
+      rw [he] at hv
+      cases e with
+      | lin id' resp' =>
+        rw [history_cons_lin] at hh
+        simp only [stepEv] at he
+        cases ph with
+        | idle => rw [hp.1] at he; cases he
+        | linearized _ _ _ => rw [hp.1] at he; cases he
+        | invoked id req resp =>
+          rw [hp.1] at he
+          by_cases hid : id' = id
+          · subst hid
+            have hg : get [(id', req)] id' = some req := by simp [NMap.get]
+            rw [hg] at he
+            simp only at he
+            by_cases hr : (step r.s req).2 = resp'
+            · rw [if_pos hr] at he
+              injection he with he
+              have hp1 : PhaseOk (.linearized id' resp' resp) r1 := by
+                rw [← he]
+                exact ⟨by simp [NMap.erase], by rw [hp.2]; rfl⟩
+              have := ih r1 (.linearized id' resp' resp) rest hh hp1 hv
+              rw [← he] at this
+              exact ⟨hr.trans this.1, this.2⟩
+            · rw [if_neg hr] at he; cases he
+          · have hg : get [(id, req)] id' = none := by simp [NMap.get, hid]
+            rw [hg] at he; cases he
+      | inv id' req' =>
+        rw [history_cons_of_not_lin _ rfl] at hh
+        cases ph with
+        | invoked _ _ _ => injection hh with h1 _; cases h1
+        | linearized _ _ _ => injection hh with h1 _; cases h1
+        | idle =>
+          cases rest with
+          | nil => cases hh
+          | cons o rest' =>
+            obtain ⟨id, req, resp⟩ := o
+            injection hh with h1 h2
+            injection h1 with e1 e2
+            subst e1; subst e2
+            simp only [stepEv] at he
+            split at he
+            · injection he with he
+              have hp1 : PhaseOk (.invoked id' req' resp) r1 := by
+                rw [← he]; exact ⟨by rw [hp.1]; rfl, hp.2⟩
+              have := ih r1 (.invoked id' req' resp) rest' h2 hp1 hv
+              rw [← he] at this
+              exact this
+            · cases he
+      | res id' resp'' =>
+        rw [history_cons_of_not_lin _ rfl] at hh
+        simp only [stepEv] at he
+        cases ph with
+        | idle =>
+          cases rest with
+          | nil => cases hh
+          | cons o rest' => obtain ⟨i, q, p⟩ := o; injection hh with h1 _; cases h1
+        | invoked id req resp =>
+          rw [hp.2] at he
+          simp [NMap.get] at he
+        | linearized id resp' resp =>
+          injection hh with h1 h2
+          injection h1 with e1 e2
+          subst e1; subst e2
+          rw [hp.2] at he
+          by_cases hr : resp' = resp''
+          · subst hr
+            have hg : get [(id', resp')] id' = some resp' := by simp [NMap.get]
+            rw [if_pos hg] at he
+            injection he with he
+            have hp1 : PhaseOk .idle r1 := by
+              rw [← he]; exact ⟨hp.1, by simp [NMap.erase]⟩
+            have := ih r1 .idle rest h2 hp1 hv
+            rw [← he] at this
+            exact ⟨rfl, this⟩
+          · have hg : ¬ (get [(id', resp')] id' = some resp'') := by
+              simp [NMap.get]; exact hr
+            rw [if_neg hg] at he; cases he
+
+/-- **a sequential history is linearizable only if every response is the one the specification
+    gives in program order** -/
+theorem seq_lin_legal (s0 : σ) (ops : List (Nat × Req × Resp))
+    (h : Linearizable step s0 (seqHist ops)) : seqLegal step s0 ops := by
+  obtain ⟨log, hl, hv⟩ := h
+  exact seq_phase step log (initR s0) .idle ops hl ⟨rfl, rfl⟩ hv
+
+end seq
+
 end Actors
 end RedisVerif
